@@ -154,6 +154,9 @@ type Runner struct {
 	// OnRound, when set, is called after every completed persistence round
 	// with the prefix the store exposes (-1 if unknown) and the round kind.
 	OnRound func(k int, kind string)
+	// OnState, when set, is called with the content the store exposes after
+	// every completed round, close, reopen and revert.
+	OnState func(tree *model.Coll, kind string)
 
 	// StopFaultsAtReopen clears the fault plan when a reopen step starts.
 	StopFaultsAtReopen bool
@@ -434,6 +437,8 @@ func (r *Runner) doStep(st Step) bool {
 			}
 		}
 	case "check":
+	case "revert":
+		return r.revert(st.N)
 	case "lowerfinal":
 		if e.Lower == nil || e.Coll == nil {
 			return true
@@ -1169,6 +1174,9 @@ func (r *Runner) afterRound(pre storeCounters) {
 	if r.OnRound != nil {
 		r.OnRound(k, kind)
 	}
+	if r.OnState != nil {
+		r.OnState(tree, kind)
+	}
 	if k < r.storeK {
 		r.viol("store", "store-went-backwards", kind, fmt.Sprintf("store exposed prefix %d after prefix %d (round kind %s)", k, r.storeK, kind))
 		return
@@ -1576,8 +1584,147 @@ func (r *Runner) reopen(kind string) bool {
 		return false
 	}
 	r.Res.Nontrivial[fmt.Sprintf("reopen:%s:gap%d", kind, n-k)]++
+	if r.OnState != nil {
+		r.OnState(t, "reopen")
+	}
 	e.World.TruncateTo(k)
 	r.storeK = k
+	r.lowerK = 0
+	return true
+}
+
+// revert closes the collection, walks depth steps back in the store's
+// history, reverts to that snapshot and reopens.
+func (r *Runner) revert(depth int) bool {
+	e := r.E
+	if e.Cfg.Backing != "store" || e.Coll == nil || e.Store == nil {
+		return true
+	}
+	if !r.resumeAll() {
+		return false
+	}
+	e.Epoch++
+	if err := e.CloseColl(); err != nil {
+		r.viol("close", "collection-close-error", "", err.Error())
+		return false
+	}
+	if r.unprovoked() {
+		return false
+	}
+	k, tree, ok := r.storePrefix()
+	if !ok {
+		return false
+	}
+	if k < r.storeK {
+		r.viol("store", "store-went-backwards", "close", fmt.Sprintf("store exposed prefix %d after prefix %d", k, r.storeK))
+		return false
+	}
+	r.storeK = k
+	if r.OnState != nil {
+		r.OnState(tree, "close")
+	}
+	target, err := e.Store.Snapshot()
+	if err != nil || target == nil {
+		return true
+	}
+	walked := 0
+	for i := 0; i < depth; i++ {
+		var prev moss.Snapshot
+		perr := Safe(func() error { var err error; prev, err = e.Store.SnapshotPrevious(target); return err })
+		if perr != nil {
+			target.Close()
+			r.viol("history", "previous-error", "", perr.Error())
+			return false
+		}
+		if prev == nil {
+			break
+		}
+		target.Close()
+		target = prev
+		walked++
+	}
+	var tt *model.Coll
+	rerr := Safe(func() error { var err error; tt, err = ReadTree(target); return err })
+	if rerr != nil {
+		target.Close()
+		r.viol("history", "previous-read-error", "", rerr.Error())
+		return false
+	}
+	ks := e.World.Prefixes(tt.Hash())
+	if len(ks) == 0 {
+		target.Close()
+		r.notPrefixViol("history", fmt.Sprintf("previous snapshot at depth %d", walked), tt)
+		return false
+	}
+	kt := ks[len(ks)-1]
+	var verr error
+	ferr := Safe(func() error { verr = e.Store.SnapshotRevert(target); return nil })
+	target.Close()
+	if ferr != nil {
+		r.viol("history", "revert-fault", "", ferr.Error())
+		return false
+	}
+	if verr != nil {
+		if strings.Contains(verr.Error(), "snapshot too old") || strings.Contains(verr.Error(), "slocs <= 0") {
+			// documented: cannot revert across a full compaction; a completely
+			// empty snapshot has no file to revert in
+			r.cnt("reverts.refused", 1)
+		} else {
+			r.viol("history", "revert-error", "", verr.Error())
+			return false
+		}
+	} else {
+		r.cnt("reverts", 1)
+		r.Res.Nontrivial[fmt.Sprintf("revert:depth%d", walked)]++
+		k2, t2, ok := r.storePrefix()
+		if !ok {
+			return false
+		}
+		if k2 != kt {
+			r.viol("history", "revert-wrong-content", "", fmt.Sprintf("after SnapshotRevert to prefix %d the store exposes prefix %d", kt, k2))
+			return false
+		}
+		e.World.TruncateTo(kt)
+		r.storeK = kt
+		if r.OnState != nil {
+			r.OnState(t2, "revert")
+		}
+	}
+	if err := e.CloseStore(); err != nil {
+		r.viol("close", "store-close-error", "", err.Error())
+		return false
+	}
+	if !WaitQuiescent(e.D.Watchdog) {
+		return r.watchdog("pending file removals before reopen")
+	}
+	if err := e.Open(); err != nil {
+		if strings.HasPrefix(err.Error(), "watchdog") {
+			return r.watchdog(err.Error())
+		}
+		r.viol("reopen", "reopen-failed", "after-revert", err.Error())
+		return false
+	}
+	var snap moss.Snapshot
+	if err := Safe(func() error { var err error; snap, err = e.Coll.Snapshot(); return err }); err != nil || snap == nil {
+		r.viol("reopen", "snapshot-error", "", fmt.Sprint(err))
+		return false
+	}
+	var t *model.Coll
+	err = Safe(func() error { var err error; t, err = ReadTree(snap); return err })
+	snap.Close()
+	if err != nil {
+		r.viol("reopen", "read-error", errClass(err.Error()), err.Error())
+		return false
+	}
+	ks = e.World.Prefixes(t.Hash())
+	if len(ks) == 0 || ks[len(ks)-1] != r.storeK {
+		r.viol("reopen", "reopen-after-revert-differs", "", fmt.Sprintf("reopened content after the revert is not prefix %d (got %v)", r.storeK, ks))
+		return false
+	}
+	e.World.TruncateTo(r.storeK)
+	if r.OnState != nil {
+		r.OnState(t, "reopen")
+	}
 	r.lowerK = 0
 	return true
 }
